@@ -19,6 +19,10 @@ using namespace std;
 
 ParameterEvent::ParameterEvent(Parameter* parameter) : parameter_(parameter) {}
 
+#ifdef BPP_CORE_VERIF
+ParameterAuditFunction bpp::parameterAuditHook = nullptr;
+#endif
+
 /** Constructors: *************************************************************/
 
 Parameter::Parameter(const std::string& name, double value, std::shared_ptr<ConstraintInterface> constraint, double precision) :
@@ -30,6 +34,9 @@ Parameter::Parameter(const std::string& name, double value, std::shared_ptr<Cons
     throw ConstraintException("Parameter::Parameter", this, value);
   setValue(value);
   setPrecision(precision);
+#ifdef BPP_CORE_VERIF
+  BPP_CORE_VERIF_PARAMETER_AUDIT("ctor");
+#endif
 }
 
 Parameter::Parameter(const Parameter& p) :
@@ -38,7 +45,13 @@ Parameter::Parameter(const Parameter& p) :
   precision_(p.precision_),
   constraint_(p.constraint_),
   listeners_(p.listeners_)
+#ifndef BPP_CORE_VERIF
 {}
+#else
+{
+  BPP_CORE_VERIF_PARAMETER_AUDIT("copy");
+}
+#endif
 
 Parameter& Parameter::operator=(const Parameter& p)
 {
@@ -47,12 +60,19 @@ Parameter& Parameter::operator=(const Parameter& p)
   precision_      = p.precision_;
   constraint_     = p.constraint_;
   listeners_      = p.listeners_;
+#ifdef BPP_CORE_VERIF
+  BPP_CORE_VERIF_PARAMETER_AUDIT("assign");
+#endif
   return *this;
 }
 
 /** Destructor: ***************************************************************/
 
+#ifndef BPP_CORE_VERIF
 Parameter::~Parameter() {}
+#else
+Parameter::~Parameter() { BPP_CORE_VERIF_PARAMETER_AUDIT("destroy"); }
+#endif
 
 /** Value: ********************************************************************/
 
@@ -66,6 +86,9 @@ void Parameter::setValue(double value)
     ParameterEvent event(this);
     fireParameterValueChanged(event);
   }
+#ifdef BPP_CORE_VERIF
+  BPP_CORE_VERIF_PARAMETER_AUDIT("setValue");
+#endif
 }
 
 /** Precision: ********************************************************************/
@@ -83,6 +106,9 @@ void Parameter::setConstraint(std::shared_ptr<ConstraintInterface> constraint)
     throw ConstraintException("Parameter::setConstraint", this, value_);
 
   constraint_ = constraint;
+#ifdef BPP_CORE_VERIF
+  BPP_CORE_VERIF_PARAMETER_AUDIT("setConstraint");
+#endif
 }
 
 
@@ -90,6 +116,9 @@ std::shared_ptr<ConstraintInterface> Parameter::removeConstraint()
 {
   auto c = constraint_;
   constraint_ = nullptr;
+#ifdef BPP_CORE_VERIF
+  BPP_CORE_VERIF_PARAMETER_AUDIT("removeConstraint");
+#endif
   return c;
 }
 
